@@ -12,8 +12,8 @@
  * The explorer enumerates depth-first ALL schedules with at most k pre-emptions (a pre-emption = switching away from a
  * thread that could continue; the switch at a thread's end is free).  Deviations are (point number, target thread) pairs in
  * increasing point order, so every schedule is visited exactly once.  The first deviation is used to shard the search.
- * Each execution is compared with the single-threaded reference of each body.  Executions run in a forked worker; a
- * crash is reported with the schedule that was executing.
+ * Each execution runs in its own fresh process (lazily built process-global state starts from scratch every time) and is
+ * compared with the single-threaded reference of each body; a crash is reported with the schedule that was executing.
  *
  * output: VIOL <kind> <schedule> | detail     and     DONE schedules=<n> points=<n> maxpreempt=<k> outcomes=<n>
  */
@@ -50,6 +50,14 @@ static int dev_target[MAXDEV];
 static unsigned char tr_thread[MAXP], tr_fin[MAXP];
 static struct c18_result ref[C18_MAXT], got[C18_MAXT];
 static uint8_t bufs[C18_MAXT][C18_BUF];
+
+/* result of one execution, written by the per-schedule child */
+struct exec_out {
+  long npoints;
+  unsigned char thr[MAXP], fin[MAXP];
+  struct c18_result got[C18_MAXT];
+};
+static struct exec_out *ex;
 
 struct shared {
   volatile long schedules;
@@ -133,7 +141,7 @@ static void *thread_main(void *arg) {
   return NULL;
 }
 
-static long run_schedule(void) {
+static long run_threads(void) {
   pthread_t th[C18_MAXT];
   point_no = 0;
   nextdev = 0;
@@ -143,6 +151,31 @@ static long run_schedule(void) {
   hand_to(0);
   for (int t = 0; t < nthreads; t++) pthread_join(th[t], NULL);
   return point_no;
+}
+
+/* Every schedule runs in a FRESH process: process-global state that the library builds lazily (the index tables) is in
+ * its initial state at the start of every execution, so the window "the very first calls of a process overlap" is
+ * explored by every schedule and not only by the first one.  Returns the number of points, or -1 if the child died. */
+static int last_status;
+static long run_schedule(void) {
+  pid_t c = fork();
+  if (c == 0) {
+    long np = run_threads();
+    ex->npoints = np;
+    long k = np < MAXP ? np : MAXP;
+    memcpy(ex->thr, tr_thread, (size_t)k);
+    memcpy(ex->fin, tr_fin, (size_t)k);
+    memcpy(ex->got, got, sizeof got);
+    _exit(0);
+  }
+  int st = 0;
+  while (waitpid(c, &st, 0) < 0 && errno == EINTR) {}
+  last_status = st;
+  if (!(WIFEXITED(st) && WEXITSTATUS(st) == 0)) return -1;
+  memcpy(tr_thread, ex->thr, MAXP);
+  memcpy(tr_fin, ex->fin, MAXP);
+  memcpy(got, ex->got, sizeof got);
+  return ex->npoints;
 }
 
 static void print_sched(void) {
@@ -188,6 +221,17 @@ static void explore(int depth) {
   }
   long np = run_schedule();
   sh->schedules++;
+  if (np < 0) {
+    sh->viol++;
+    if (sh->viol <= 20) {
+      printf("VIOL crash ");
+      print_sched();
+      printf(" | execution died: %s %d\n", WIFSIGNALED(last_status) ? "signal" : "exit",
+             WIFSIGNALED(last_status) ? WTERMSIG(last_status) : WEXITSTATUS(last_status));
+      fflush(stdout);
+    }
+    return;
+  }
   if (np > sh->maxpoints) sh->maxpoints = np;
   check();
   if (depth >= kmax) return;
@@ -245,8 +289,22 @@ int main(int argc, char **argv) {
   }
   sh = mmap(NULL, sizeof *sh, PROT_READ | PROT_WRITE, MAP_SHARED | MAP_ANONYMOUS, -1, 0);
   memset((void *)sh, 0, sizeof *sh);
-  /* single-threaded references (unmanaged: self = -1) */
-  for (int t = 0; t < nthreads; t++) c18_body(t, variant, bufs[t], &ref[t]);
+  ex = mmap(NULL, sizeof *ex, PROT_READ | PROT_WRITE, MAP_SHARED | MAP_ANONYMOUS, -1, 0);
+  /* single-threaded references (unmanaged: self = -1), each body alone in its own fresh process */
+  for (int t = 0; t < nthreads; t++) {
+    pid_t c = fork();
+    if (c == 0) {
+      c18_body(t, variant, bufs[t], &ex->got[t]);
+      _exit(0);
+    }
+    int st = 0;
+    while (waitpid(c, &st, 0) < 0 && errno == EINTR) {}
+    if (!(WIFEXITED(st) && WEXITSTATUS(st) == 0)) {
+      printf("VIOL crash [] | single-threaded reference of body %d died\n", t);
+      return 0;
+    }
+    memcpy(&ref[t], &ex->got[t], sizeof ref[t]);
+  }
   pid_t w = fork();
   if (w == 0) {
     if (replay) {
